@@ -104,9 +104,25 @@ func init() {
 			n = 7
 		}
 		driverLoop(c, r, "C03", "actions", "actions", n, nil, "parses")
+		// the error clause also on grammars with error alternatives (recovery must not swallow an action's error)
+		var eitems []*corp.Item
+		for i, g := range errFamily("quick") {
+			if i < len(gram.ErrSeeds()) || (tier == "thorough" && i%4 == 0) {
+				it := corp.NewItem("Err", gram.WithRecActions(g))
+				it.RtImp = true
+				eitems = append(eitems, it)
+			}
+		}
+		ec, err := corp.Build(t, sw.pool, "c03e", eitems)
+		defer ec.Close()
+		if err != nil {
+			ev.Inconsistent("layer-B corpus: %v", err)
+		}
+		driverLoop(ec, r, "C03", "actions", "recover", n-1, map[string]any{"inject": true}, "injected_failures")
+		r.Set("error_alternative_grammars", len(eitems))
 		r.Set("base_grammars", len(sel))
 		r.Set("sequence_bound", n)
-		r.Set("rule", "compiled unmodified parsers of conflict-free base grammars x four action assignments (explicit $i, $Ti on terminals, none = defaults, mixed) : every sentence up to the bound, under three Context values (recorder, nil, a second object): action-call log (alternative, arguments, token POINTER identity) and result against post-order evaluation of the parse tree; then every choice of which action occurrence fails: Parse must return an error carrying it, exactly that many actions ran, no Scan afterwards; distinct = (grammar, call sequence, result)")
+		r.Set("rule", "compiled unmodified parsers of conflict-free base grammars x four action assignments (explicit $i, $Ti on terminals, none = defaults, mixed) : every sentence up to the bound, under three Context values (recorder, nil, a second object): action-call log (alternative, arguments, token POINTER identity) and result against post-order evaluation of the parse tree; then every choice of which action occurrence fails: Parse must return an error carrying it, exactly that many actions ran, no Scan afterwards - this error clause also on grammars WITH error alternatives, over every token sequence (not only sentences); distinct = (grammar, call sequence, result)")
 		return r.Finish(nil)
 	}
 }
